@@ -188,6 +188,32 @@ def _scenarios(scratch, quick, r):
             time.sleep(0.02)
         hung = sc.wait_all()
         yield (sc.name, "create", ["scenario %s create parked=%s@open1x2 hung=%s" % (sc.name, parked, ",".join(hung) or "-")] + sc.observations(), [w for w in sc.started if w != 'P0'])
+    # C: a creator that stopped between taking the lock and initialising the file (played by this orchestrator: it
+    # creates the empty file and holds the lock — the lock call is a raw system call, no worker can be parked there);
+    # a second opener arrives and waits; the "creator" then initialises the file (the bytes of a database in which a
+    # worker PX has committed its marker) and closes.  The waiting opener must find that database, not start over.
+    import fcntl
+    for k in range(1 if quick else 3):
+        sc = Scenario(scratch, "n-stalled-creator%d" % k, existing=False)
+        src = os.path.join(sc.dir, "jverif-proc-src.db")
+        env0 = dict(vlib.ENV)
+        subprocess.run([vlib.JHARNESS, "proc", src, "PX", str(sc.pagesize), os.path.join(sc.dir, "src.log"), "0", "0", "0"], env=env0,
+                       stdout=subprocess.DEVNULL, stderr=subprocess.DEVNULL, timeout=60)
+        image = open(src, "rb").read() if os.path.exists(src) else b""
+        fd = os.open(sc.db, os.O_RDWR | os.O_CREAT, 0o644)
+        fcntl.flock(fd, fcntl.LOCK_EX)
+        with open(sc.log, "a") as lg:
+            lg.write("PX open-called %d\nPX open-returned %d\n" % (time.monotonic_ns(), time.monotonic_ns()))
+        sc.start("P2", hold=2 + k)
+        sc.wait_logged("P2", "open-called")
+        time.sleep(0.15)
+        os.pwrite(fd, image, 0)
+        os.fsync(fd)
+        with open(sc.log, "a") as lg:
+            lg.write("PX worked %d seen=[] commit=%s\nPX about-to-close %d\n" % (time.monotonic_ns(), "true" if image else "false", time.monotonic_ns()))
+        os.close(fd)
+        hung = sc.wait_all()
+        yield (sc.name, "create", ["scenario %s create parked=%s@stalled-creator hung=%s" % (sc.name, bool(image), ",".join(hung) or "-")] + sc.observations(), [w for w in sc.started if w != 'P0'])
     # R: several processes race to create the same missing file (no parking: the window between "file exists, still
     # empty" and "initialised" is closed by the lock alone; start offsets of 0-2 ms)
     for k in range(10 if quick else 60):
